@@ -29,10 +29,19 @@ FIXED_BY = "039cc0c"
 FALLBACK_PREFIXES = [("Path traversal not allowed (..)", "DOTDOT"), ("Invalid path: ", "RESOLVE"),
                      ("Symlinks in path are not allowed for security reasons", "SYMLINK"), ("Symlink in path not allowed for security reasons", "SYMLINK"),
                      ("Path resolution failed: ", "RESOLVE"), ("Invalid file extension. Allowed: ", "EXT")]
-# source URIs: a cyclic link followed by '..' makes Path.resolve() (CPython 3.12) return a path whose later components are NOT
-# resolved, so a link inside the base that points outside passes the containment check (found by the sibling/staleness stream)
-URI_FINDING = "C19-source-uri-cycle-dotdot"
-URI_WITNESS = ("sb", "loop.md/../lf.md")
+# source URIs: CPython's realpath stops at a symlink loop and returns the remaining components UNRESOLVED (then normalised
+# lexically), so a link inside the base that points outside could pass the containment check.  History:
+#  * validate_source_uri did ONE resolution step (finding C19-source-uri-cycle-dotdot); ea316ac added os.path.realpath of the
+#    result, which can stop at a loop again (finding C19-source-uri-second-loop); _check_single_snapshot still did one step
+#    (finding C19-staleness-cycle-dotdot);  3bf4eb7: both use _resolve_without_links, which refuses any result with a link in a
+#    component.  All three are `fixed:` now; their witnesses are corpus/C19/uri-cycle-*.json (expect: refused on every surface).
+# The ids below are only used if such a record is listed again (nothing is attributed to an id that is not `known`);
+# attribution would be by the step that stops: posixpath._joinrealpath (the interpreter's own function, used as an oracle)
+# returns ok=False for the input of that surface's LAST resolution step.
+URI2_FINDING = "C19-source-uri-second-loop"
+URI2_WITNESS = ("sb", "loop.md/../k2")
+STALE_FINDING = "C19-staleness-cycle-dotdot"
+STALE_WITNESS = ("sb", "loop.md/../lf.md")
 
 DOC = "===D===\nA::1\n===END===\n"
 NEWDOC = "===D===\nA::2\n===END===\n"
@@ -730,8 +739,9 @@ def frozen_and_uri(job):
             try:
                 p = hydrator.validate_source_uri(u, Path(basep))
                 oc = "OK " + str(p).replace(base, "{B}")
-                # the returned path claims to be resolved: both its text and the file it names (links followed) must be inside
-                inside = (str(p) + "/").startswith(root_real + "/") and (os.path.realpath(str(p)) + "/").startswith(root_real + "/")
+                # the returned path claims to be resolved: both its text and the file the KERNEL opens for it must be inside
+                kt = kernel_target(str(p))
+                inside = (str(p) + "/").startswith(root_real + "/") and (kt is None or (kt + "/").startswith(root_real + "/"))
             except hydrator.SourceUriSecurityError:
                 oc, inside = "REFUSED", True
             except BaseException as e:  # noqa
@@ -747,7 +757,8 @@ def frozen_and_uri(job):
                 status, got_hash = "EXC:" + type(e).__name__, False
             ops = REC
             REC = None
-            uris.append((base_rel, uraw, oc, inside, {"escapes": escapes, "cycle_then_dotdot": cycle_then_dotdot(basep, u), "status": status, "hash": got_hash, "outside_reads": outside_reads(ops, root_real)}))
+            uris.append((base_rel, uraw, oc, inside, {"escapes": escapes, "cycle_then_dotdot": cycle_then_dotdot(basep, u), "step1_incomplete": step_incomplete(basep, u, 1),
+                                                         "step2_incomplete": step_incomplete(basep, u, 2), "status": status, "hash": got_hash, "outside_reads": outside_reads(ops, root_real)}))
         # CLI: octave hydrate FILE --check --project-root <base dir>
         clis = []
         from click.testing import CliRunner
@@ -772,6 +783,7 @@ def frozen_and_uri(job):
             REC = None
             os.unlink(docp)
             clis.append((base_rel, uraw, oc, {"escapes": escapes, "cycle_then_dotdot": cycle_then_dotdot(basep, u),
+                                             "step1_incomplete": step_incomplete(basep, u, 1),
                                              "outside_reads": outside_reads(ops, root_real)}))
         return {"base": base, "digests": (dg, dbad), "frozen": fro, "frozen_content": froc, "uris": uris, "cli": clis,
                 "oracle": [(good.decode(), dg), (bad.decode(), hashlib.sha256(bad).hexdigest())]}
@@ -847,6 +859,37 @@ SIB_SUFFIXES = ("-private", "2", "_old", ".bak")
 URI_BASES = ("sb", "sb/d")
 
 
+def kernel_target(p):
+    """The file the kernel reaches for path p (all links followed by the kernel itself, not by os.path.realpath, which stops at
+    loops): O_PATH open + /proc/self/fd; None if p cannot be opened (ENOENT / ELOOP / ENOTDIR ...)."""
+    try:
+        fd = os.open(p, os.O_PATH)
+    except (OSError, ValueError):
+        return None
+    try:
+        return os.readlink("/proc/self/fd/%d" % fd)
+    except OSError:
+        return None
+    finally:
+        os.close(fd)
+
+
+def step_incomplete(basep, u, which):
+    """Classifier of the two source-URI findings.  which = 1: the FIRST resolution step (realpath of base/u) stops at a symlink
+    loop; which = 2: the first step returns (Path.resolve() does not raise) and the SECOND one (realpath of its result) stops at a
+    loop.  Uses posixpath._joinrealpath, whose second result says whether every link was resolved."""
+    import posixpath
+    from pathlib import Path
+    try:
+        cand = str(Path(basep) / u)
+        if which == 1:
+            return not posixpath._joinrealpath("", cand, False, {})[1]
+        q = str(Path(cand).resolve())
+        return not posixpath._joinrealpath("", q, False, {})[1]
+    except Exception:  # noqa   (NUL, RuntimeError of resolve(): the surface refuses or raises, nothing to attribute)
+        return False
+
+
 def cycle_then_dotdot(basep, u):
     """Classifier of finding C19-source-uri-cycle-dotdot, read off the real tree without pathlib: walking the components of
     `u` from `basep` lexically, some component is a symbolic link for which stat gives ELOOP (a link cycle) and a LATER component
@@ -881,14 +924,16 @@ def sibling_spec(base):
             sib = parent + nm + suf
             t += [(sib, "d", ""), (sib + "/x.oct.md", "f", VOCAB), (sib + "/secret.oct.md", "f", SECRET)]
     t += [("sb/lsib", "l", "../sb-private"), ("sb/lsiba", "l", base + "/sb_old"), ("sb/lsibf.oct.md", "l", "../sb2/x.oct.md"),
-          ("sb/d/ldsib", "l", "../d2"), ("sb/d/ldsibf.oct.md", "l", base + "/sb/d.bak/secret.oct.md")]
+          ("sb/d/ldsib", "l", "../d2"), ("sb/d/ldsibf.oct.md", "l", base + "/sb/d.bak/secret.oct.md"),
+          # a link whose target walks through a missing name, a cyclic link and '..' before a link that leaves the base
+          ("sb/k2", "l", "missing/../loop.md/../lf.md"), ("sb/k3", "l", "loop.md/../k2")]
     return t
 
 
 def gen_uris(ctx):
     """[(base dir relative to the scratch root, uri)]; {B} = scratch root."""
     segs = ["d", "e", "ld", "ldi", "dangd", "ldd", ".", "..", "", "f.md", "lf.md", "lfi.md", "dang.md", "loop.md", "up.md",
-            "new.md", "lsd", "s2.oct.md", "secret.md", "deep.md", "x\x00", "C:", "sb", "out",
+            "new.md", "lsd", "s2.oct.md", "secret.md", "deep.md", "x\x00", "C:", "sb", "out", "k2", "k3", "la.md",
             "sb-private", "sb2", "sb_old", "sb.bak", "x.oct.md", "secret.oct.md", "lsib", "lsiba", "lsibf.oct.md"]
     out = ["", "/etc/passwd", "C:/x", "c:", "a:b", "../out/secret.md", "ld/secret.md", "d/../../out/secret.md", "//x", "./f.md"]
     for a in segs:
@@ -932,7 +977,9 @@ def sibling_uris():
             # controls: inside the base (must be accepted / hashed), and an unrelated outside directory
             ("sb", "x.oct.md"), ("sb", "d/x.oct.md"), ("sb", "d/../x.oct.md"), ("sb/d", "x.oct.md"), ("sb/d", "e/../x.oct.md"),
             ("sb", "../out/secret.md"), ("sb/d", "../../out/secret.md"), ("sb/d", "../x.oct.md"),
-            URI_WITNESS, ("sb", "loop.md/x/../../lf.md"), ("sb", "la.md/../d/up.md"), ("sb", "loop.md/../lsib/secret.oct.md")]
+            STALE_WITNESS, ("sb", "loop.md/x/../../lf.md"), ("sb", "la.md/../d/up.md"), ("sb", "loop.md/../lsib/secret.oct.md"),
+            URI2_WITNESS, ("sb", "k2"), ("sb", "k3"), ("sb", "la.md/../k2"), ("sb", "loop.md/../k3"), ("sb", "d/../loop.md/../k2"),
+            ("sb/d", "../loop.md/../k2"), ("sb", "loop.md"), ("sb", "loop.md/x"), ("sb", "la.md")]
     return out
 
 
@@ -1235,8 +1282,10 @@ def run(ctx):
     sys.path.insert(0, str(VERIF / "harness"))
     from translate import paths_t
     RN = {1: "DOTDOT", 2: "SYMLINK", 3: "EXT"}
+    uri_second = True
     try:
         x = paths_t.extract(SRC)
+        uri_second = x["uri_resolution"] >= 1
         prefixes = {}
         for who in ("write", "validate", "fileops"):
             pl = []
@@ -1299,7 +1348,9 @@ def run(ctx):
                                                          for k in range(nchunk)]) for x in part]
         rng_names = ["META", "META\n", "DECOY", "DECOY\n", "../secret/DECOY", "/etc/passwd", "DECOY/../../secret/DECOY", "decoy", "A", "SESSION_LOG", "..", "", "D\u00c9COY"]
         se = pool.apply(schema_end_to_end, ({"names": rng_names},))
-        fu = pool.apply(frozen_and_uri, ({"uris": gen_uris(ctx), "cli_uris": [x for x in sibling_uris() if "\x00" not in x[1]],
+        uri_list = [(c.get("base", "sb"), c["source_uri"]) for c in corpus if "source_uri" in c]       # corpus first
+        uri_list += [x for x in gen_uris(ctx) if x not in uri_list]
+        fu = pool.apply(frozen_and_uri, ({"uris": uri_list, "cli_uris": [x for x in sibling_uris() if "\x00" not in x[1]] + [(c.get("base", "sb"), c["source_uri"]) for c in corpus if "source_uri" in c],
                                            "seed": ctx.rng.randrange(1 << 30), "n_random": ctx.scale(60, 3000)},))
     ctx.extra["rule"] = (
         "corpus first (witnesses of the finding fixed by 039cc0c -- dangling link as last / as directory component, ENOTDIR link, "
@@ -1428,6 +1479,8 @@ def run(ctx):
             lines.append("rfrozen " + enc_path(segs + ["sb", "cache"]) + " " + enc_str(ref) + " " + tbl)
         for base_rel, u, *_ in fu["uris"]:
             lines.append("uri " + enc_path(segs + base_rel.split("/")) + " " + enc_str(u.replace("{B}", base)))
+        for base_rel, u, *_ in fu["uris"]:
+            lines.append("stale " + enc_path(segs + base_rel.split("/")) + " " + enc_str(u.replace("{B}", base)))
         mres = run_driver("pathm", lines)[1:]
     else:
         mres = None
@@ -1493,55 +1546,90 @@ def run(ctx):
             return "abs-prefix-sibling" if u.startswith(("/", "{B}")) else "dotdot-prefix-sibling"
         return "other"
 
+    # corpus records for source URIs: {"base", "source_uri", "expect": "refused", "surfaces": [...], "fixed": commit}
+    uri_expect = {}
+    for c in corpus:
+        if "source_uri" in c and c.get("expect") == "refused":
+            uri_expect[(c.get("base", "sb"), c["source_uri"])] = c
+    uri_expect_seen = set()
     witness_seen = {}
+    nuri = len(fu["uris"])
     for i, (base_rel, u, oc, inside, stale) in enumerate(fu["uris"]):
         ctx.count(2)
         ctx.hist("source_uri", oc.split(" ")[0].split(":")[0])
         sc = sib_class(u)
         ctx.hist("source_uri_class", sc + (":escapes" if stale["escapes"] else ":inside" if stale["escapes"] is False else ":nul"))
         ctx.hist("staleness", ("escaping" if stale["escapes"] else "inside") + " -> " + stale["status"])
+        if stale["step1_incomplete"] or stale["step2_incomplete"]:
+            ctx.hist("source_uri_loop", ("step1 " if stale["step1_incomplete"] else "") + ("step2" if stale["step2_incomplete"] else ""))
         case = {"source_uri": u, "base": "{B}/" + base_rel, "outcome": oc, "escapes_base(os.path.realpath)": stale["escapes"],
-                "cycle_then_dotdot": stale["cycle_then_dotdot"]}
-        if oc.startswith("OK") or sc != "other":
+                "first_resolution_step_stops_at_loop": stale["step1_incomplete"], "second_resolution_step_stops_at_loop": stale["step2_incomplete"]}
+        if oc.startswith("OK") or sc != "other" or stale["step1_incomplete"]:
             ctx.nontrivial(("uri", base_rel, u))
-        fid = URI_FINDING if stale["cycle_then_dotdot"] else None
-        if (base_rel, u) == URI_WITNESS:
-            witness_seen["still"] = (oc.startswith("OK") and not inside) or stale["status"] in ("FRESH", "STALE")
+        scase = dict(case, surface="check_staleness(doc, base_path=base)", staleness=stale)
+        # ---- corpus expectations (witnesses of fixed findings): judged from the corpus record alone ----
+        exp = uri_expect.get((base_rel, u))
+        if exp is not None:
+            uri_expect_seen.add((base_rel, u))
+            why = f"regression of the defect fixed by {exp.get('fixed', '?')}: "
+            surf = exp.get("surfaces", ["validate_source_uri"])
+            if "validate_source_uri" in surf and oc.startswith("OK"):
+                ctx.property_failure(dict(case, corpus=exp), why + "validate_source_uri accepted a SOURCE_URI that must be refused "
+                                     "(cyclic link + '..' + link to a file outside the base)")
+            if "check_staleness" in surf and (stale["status"] in ("FRESH", "STALE") or stale["hash"] or stale["outside_reads"]):
+                ctx.property_failure(dict(scase, corpus=exp), why + "check_staleness opened / hashed the file behind a SOURCE_URI that must be refused")
+        # ---- the property, by surface ----
+        fid_uri = URI2_FINDING if stale["step2_incomplete"] else None
+        fid_stale = STALE_FINDING if stale["step1_incomplete"] else None
+        if (base_rel, u) == URI2_WITNESS:
+            witness_seen[URI2_FINDING] = oc.startswith("OK") and not inside
+        if (base_rel, u) == STALE_WITNESS:
+            witness_seen[STALE_FINDING] = stale["status"] in ("FRESH", "STALE") or bool(stale["outside_reads"])
         if oc.startswith("OK") and not inside:
             ctx.property_failure(case, "source URI resolved outside its base directory (the returned path, links followed, names a file outside)",
-                                 finding=fid)
+                                 finding=fid_uri)
         # check_staleness on a manifest naming this URI: an escaping URI must end in ERROR without a hash, and no file outside the
         # base may be opened for any URI
-        scase = dict(case, surface="check_staleness(doc, base_path=base)", staleness=stale)
         if stale["outside_reads"]:
-            ctx.property_failure(scase, "check_staleness opened a file outside the base directory of the SOURCE_URI", finding=fid)
+            ctx.property_failure(scase, "check_staleness opened a file outside the base directory of the SOURCE_URI", finding=fid_stale)
         elif stale["escapes"] and (stale["status"] in ("FRESH", "STALE") or stale["hash"]):
-            ctx.property_failure(scase, "check_staleness hashed a SOURCE_URI that resolves outside its base directory", finding=fid)
+            ctx.property_failure(scase, "check_staleness hashed a SOURCE_URI that resolves outside its base directory", finding=fid_stale)
         if mres is not None:
+            # validate_source_uri vs validate_uri_src: CPython's realpath incl. its symlink-loop branch is IN the model
             m = mres[off + i]
             mm = ("OK " + dec_path(m.split(" ")[1]).replace(base, "{B}")) if m.startswith("OK") else m
             impl_u = "RAISE" if oc.startswith("RAISE") else oc
-            cyc = mm == "RAISE" or oc.startswith("RAISE:RuntimeError")
-            if mm != impl_u and cyc and ".." in u.split("/") and (mm in ("RAISE", "REFUSED")):
-                # a link cycle followed by '..' (possibly swallowing a NUL component): CPython normalises the unresolved remainder
-                ctx.hist("out_of_model", "source URI: cycle followed by '..' (CPython resolve returns, model raises)")
-            elif mm != ("RAISE" if oc.startswith("RAISE") else oc):
+            if mm != impl_u:
                 ctx.correspondence_failure(dict(case, model=mm), "validate_source_uri differs from the model")
-            elif stale["status"] in ("FRESH", "STALE") and not u.startswith(("/", "{B}")) and not mm.startswith("OK"):
-                # the model's containment is on COMPONENT lists (path_prefixb): a hash of a file the model places outside
-                ctx.correspondence_failure(dict(scase, model=mm), "check_staleness hashed a file the model's validate_uri does not accept")
-    if URI_FINDING in ctx.known:
-        if "still" not in witness_seen:
-            ctx.obligation_failure("finding-witness", f"witness of {URI_FINDING} was not executed")
-        ctx.finding_witness(URI_FINDING, witness_seen.get("still", False))
+            elif m.startswith("OK") and (m.split(" ")[2] == "0") != bool(stale["step2_incomplete"] if uri_second else stale["step1_incomplete"]):
+                ctx.correspondence_failure(dict(case, model=m), "model's `complete` flag differs from posixpath._joinrealpath's ok flag")
+            # check_staleness vs stale_uri_src
+            ms = mres[off + nuri + i]
+            ms_cls = "HASHED" if ms.startswith("HASHED") else ms
+            st_cls = "HASHED" if stale["status"] in ("FRESH", "STALE") else "RAISE" if stale["status"].startswith("EXC") else "ERROR"
+            if stale["status"] != "NONE" and ms_cls != st_cls:
+                ctx.correspondence_failure(dict(scase, model=ms), "check_staleness differs from the model (stale_uri_src)")
+    for key in sorted(set(uri_expect) - uri_expect_seen):
+        ctx.obligation_failure("corpus", f"corpus source-URI case {key} was not executed")
+    ctx.extra["corpus_uri_expectations_replayed"] = len(uri_expect_seen)
+    for fid in (URI2_FINDING, STALE_FINDING):
+        if fid in ctx.known:
+            if fid not in witness_seen:
+                ctx.obligation_failure("finding-witness", f"witness of {fid} was not executed")
+            ctx.finding_witness(fid, witness_seen.get(fid, False))
     for base_rel, u, oc, info in fu["cli"]:
         ctx.count()
         ctx.hist("cli_hydrate_check", ("escaping" if info["escapes"] else "inside") + " -> " + oc)
         ctx.nontrivial(("cli-hydrate", base_rel, u))
         case = {"surface": "octave hydrate FILE --check --project-root <base>", "source_uri": u, "base": "{B}/" + base_rel, "outcome": oc,
-                "escapes_base(os.path.realpath)": info["escapes"], "cycle_then_dotdot": info["cycle_then_dotdot"],
+                "escapes_base(os.path.realpath)": info["escapes"], "first_resolution_step_stops_at_loop": info["step1_incomplete"],
                 "outside_reads": info["outside_reads"]}
-        fid = URI_FINDING if info["cycle_then_dotdot"] else None
+        exp = uri_expect.get((base_rel, u))
+        if exp is not None and "hydrate --check" in exp.get("surfaces", []) and (info["outside_reads"] or "FRESH:" in oc or "STALE:" in oc):
+            ctx.property_failure(dict(case, corpus=exp), f"regression of the defect fixed by {exp.get('fixed', '?')}: octave hydrate --check "
+                                 "opened / hashed the file behind a SOURCE_URI that must be refused")
+            continue
+        fid = STALE_FINDING if info["step1_incomplete"] else None
         if info["outside_reads"]:
             ctx.property_failure(case, "octave hydrate --check opened a file outside --project-root", finding=fid)
         elif info["escapes"] and ("FRESH:" in oc or "STALE:" in oc):
